@@ -290,7 +290,7 @@ pub fn relabel(contents: &[u32]) {
     })
 }
 
-/// The element: an id (first field) and, with the `wide` feature, padding that makes it 32 bytes
+/// The element: an id (first field) and, with the `wide` feature, padding that makes it 128 bytes
 /// large and 16-byte aligned (so element-size / alignment dependent pointer arithmetic is exercised
 /// with something else than a 4-byte element).
 #[cfg(not(feature = "wide"))]
@@ -298,7 +298,7 @@ pub fn relabel(contents: &[u32]) {
 pub struct E(pub u32);
 #[cfg(feature = "wide")]
 #[repr(C, align(16))]
-pub struct E(pub u32, pub [u32; 5]);
+pub struct E(pub u32, pub [u32; 29]);
 
 impl E {
     #[inline]
@@ -309,7 +309,7 @@ impl E {
         }
         #[cfg(feature = "wide")]
         {
-            E(id, [0x7777_7777; 5])
+            E(id, [0x7777_7777; 29])
         }
     }
 }
